@@ -4,7 +4,7 @@
    names, shape, sibling order and exported attributes."
    Model: Algo/Export.v (export.py:802-1160, construct.py); specification: Spec/PC06.v.
    (The textual half -- Newick, printed tree -- is Props/C06_text.v.) *)
-From BT Require Import Base.Prelude Base.Str Base.Rose Algo.Export Spec.PC06 Algo.ExportProofs.
+From BT Require Import Base.Prelude Base.Str Base.StrSep Base.Rose Algo.Export Spec.PC06 Algo.ExportProofs.
 
 (* ---------------------------------------------------------------------------------------------- *)
 (* completeness of the exports: one record per selected node, in pre-order *)
@@ -29,7 +29,7 @@ Print Assumptions C06_dict_records.
 
 Theorem C06_paths_distinct : forall c t,
   valid_tree t = true -> sep_safe [c] t = true -> NoDup (map (c_path [c]) (nodes_under [] t)).
-Proof. exact paths_nodup. Qed.
+Proof. exact paths_nodup_1. Qed.
 Print Assumptions C06_paths_distinct.
 
 (* the same with the guard discharged, for any start node of a Node tree (non-empty names, distinct
@@ -41,7 +41,7 @@ Theorem C06_dict_records_node_tree : forall c root p o t,
   tree_to_dict root [c] p o
   = Ret (map (fun x => (c_path [c] x, dict_record o x))
              (filter (selected o) (nodes_under (anc_names root p) t))).
-Proof. exact tree_to_dict_records. Qed.
+Proof. exact tree_to_dict_records_1. Qed.
 Print Assumptions C06_dict_records_node_tree.
 
 (* the decision used by the check holds of the model for every input *)
@@ -91,7 +91,7 @@ Print Assumptions C06_dataframe_prop.
    no name: the original tree, attributes restricted to the exported (public) ones *)
 Theorem C06_dict_roundtrip : forall c t,
   valid_tree t = true -> sep_safe [c] t = true -> rt_dict t [c] = Ret (norm_tree false t).
-Proof. exact rt_dict_ok. Qed.
+Proof. exact rt_dict_ok_1. Qed.
 Print Assumptions C06_dict_roundtrip.
 
 Theorem C06_dict_roundtrip_prop : forall c t, prop_rt_path false [c] t (rt_dict t [c]) = true.
@@ -116,7 +116,7 @@ Print Assumptions C06_nested_roundtrip_prop.
 Theorem C06_dataframe_roundtrip : forall c t,
   valid_tree t = true -> sep_safe [c] t = true -> frame_safe t = true ->
   res_map sort_tree (rt_frame t [c]) = Ret (norm_tree true t).
-Proof. exact rt_frame_ok. Qed.
+Proof. exact rt_frame_ok_1. Qed.
 Print Assumptions C06_dataframe_roundtrip.
 
 Theorem C06_dataframe_roundtrip_prop : forall c t, prop_rt_path true [c] t (rt_frame t [c]) = true.
@@ -127,8 +127,60 @@ Theorem C06_polars_roundtrip : forall c t,
   valid_tree t = true -> sep_safe [c] t = true -> frame_safe t = true ->
   res_map sort_tree (bind (tree_to_polars t [c] [] full_opts) (fun d => polars_to_tree d [c]))
   = Ret (norm_tree true t).
-Proof. exact rt_frame_ok. Qed.
+Proof. exact rt_frame_ok_1. Qed.
 Print Assumptions C06_polars_roundtrip.
+
+(* ---------------------------------------------------------------------------------------------- *)
+(* separators of ANY positive length.  Guard sep_free sp t: sp <> [] and no CHARACTER of sp occurs in
+   a name of t (C06_sep_free_spec); for a one-character separator this is sep_safe, and the theorems
+   above are the special cases.  The character-wise guard is exactly what str.lstrip(sep) /
+   str.rstrip(sep) (character-SET semantics) need; with the weaker substring guard the clause is
+   false (C06_dict_roundtrip_multichar_refuted, finding K3-C06). *)
+Theorem C06_sep_free_spec : forall sp t,
+  sep_free sp t = true <-> sp <> [] /\ forall n, In n (pre t) -> sfree sp (tname n).
+Proof. exact sep_free_spec. Qed.
+Print Assumptions C06_sep_free_spec.
+
+Theorem C06_paths_distinct_multi : forall sp t,
+  valid_tree t = true -> sep_free sp t = true -> NoDup (map (c_path sp) (nodes_under [] t)).
+Proof. exact paths_nodup. Qed.
+Print Assumptions C06_paths_distinct_multi.
+
+Theorem C06_dict_records_node_tree_multi : forall sp root p o t,
+  valid_tree root = true -> sep_free sp root = true -> subtree_at root p = Some t ->
+  tree_to_dict root sp p o
+  = Ret (map (fun x => (c_path sp x, dict_record o x))
+             (filter (selected o) (nodes_under (anc_names root p) t))).
+Proof. exact tree_to_dict_records. Qed.
+Print Assumptions C06_dict_records_node_tree_multi.
+
+Theorem C06_dict_roundtrip_multi : forall sp t,
+  valid_tree t = true -> sep_free sp t = true -> rt_dict t sp = Ret (norm_tree false t).
+Proof. exact rt_dict_ok. Qed.
+Print Assumptions C06_dict_roundtrip_multi.
+
+Theorem C06_dict_roundtrip_multi_prop : forall sp t,
+  sep_free sp t = true -> prop_rt_path false sp t (rt_dict t sp) = true.
+Proof. exact prop_rt_dict_multi. Qed.
+Print Assumptions C06_dict_roundtrip_multi_prop.
+
+Theorem C06_dataframe_roundtrip_multi : forall sp t,
+  valid_tree t = true -> sep_free sp t = true -> frame_safe t = true ->
+  res_map sort_tree (rt_frame t sp) = Ret (norm_tree true t).
+Proof. exact rt_frame_ok. Qed.
+Print Assumptions C06_dataframe_roundtrip_multi.
+
+Theorem C06_dataframe_roundtrip_multi_prop : forall sp t,
+  sep_free sp t = true -> prop_rt_path true sp t (rt_frame t sp) = true.
+Proof. exact prop_rt_frame_multi. Qed.
+Print Assumptions C06_dataframe_roundtrip_multi_prop.
+
+Theorem C06_polars_roundtrip_multi : forall sp t,
+  valid_tree t = true -> sep_free sp t = true -> frame_safe t = true ->
+  res_map sort_tree (bind (tree_to_polars t sp [] full_opts) (fun d => polars_to_tree d sp))
+  = Ret (norm_tree true t).
+Proof. exact rt_frame_ok. Qed.
+Print Assumptions C06_polars_roundtrip_multi.
 
 (* ---------------------------------------------------------------------------------------------- *)
 (* non-vacuity, and the separator guard is needed *)
@@ -173,4 +225,13 @@ Example C06_dataframe_null_not_restored :
   valid_tree ex_tree = true /\ sep_safe [47]%N ex_tree = true /\ frame_safe ex_tree = true
   /\ same_tree false ex_tree (rt_frame ex_tree [47]%N) = false
   /\ same_tree true ex_tree (rt_frame ex_tree [47]%N) = true.
+Proof. vm_compute. repeat split. Qed.
+
+(* the multi-character guard is satisfiable on a non-trivial tree, for the separators the harness
+   draws ("->", "::", "-|-"), and it fails on the K3 witness *)
+Example C06_multi_guard_satisfiable :
+  valid_tree ex_tree = true /\ sep_free [45; 62]%N ex_tree = true /\ sep_free [58; 58]%N ex_tree = true
+  /\ sep_free [45; 124; 45]%N ex_tree = true
+  /\ rt_dict ex_tree [45; 62]%N = Ret (norm_tree false ex_tree)
+  /\ sep_free [45; 62]%N k3_tree = false.
 Proof. vm_compute. repeat split. Qed.
